@@ -18,7 +18,7 @@ use bytes::Bytes;
 use domain::base::iana::Class;
 use domain::base::{Message, MessageBuilder, Record, Rtype, Serial, Ttl};
 use domain::net::server::message::{
-    NonUdpTransportContext, Request, TransportSpecificContext,
+    NonUdpTransportContext, Request, TransportSpecificContext, UdpTransportContext,
 };
 use domain::net::server::middleware::xfr::{
     XfrData, XfrDataProvider, XfrDataProviderError, XfrMiddlewareSvc,
@@ -88,7 +88,10 @@ impl XfrDataProvider<()> for ZoneWithDiffs {
     }
 }
 
-fn mk_request(qtype: Rtype, serial: u32, limit: u16) -> Request<Vec<u8>, ()> {
+/// `udp_hint`: None = TCP context; Some(h) = UDP context with response size
+/// hint h.  `reserved` octets are reserved in the request, as an outer
+/// middleware (TSIG, EDNS) does for the RR it appends to every response.
+fn mk_request_on(qtype: Rtype, serial: u32, reserved: u16, udp_hint: Option<u16>) -> Request<Vec<u8>, ()> {
     let mut b = MessageBuilder::new_vec();
     b.header_mut().set_id(REQ_ID);
     let mut q = b.question();
@@ -104,11 +107,18 @@ fn mk_request(qtype: Rtype, serial: u32, limit: u16) -> Request<Vec<u8>, ()> {
         "127.0.0.1:12345".parse().unwrap(),
         tokio::time::Instant::now(),
         msg,
-        TransportSpecificContext::NonUdp(NonUdpTransportContext::new(None)),
+        match udp_hint {
+            None => TransportSpecificContext::NonUdp(NonUdpTransportContext::new(None)),
+            Some(h) => TransportSpecificContext::Udp(UdpTransportContext::new(Some(h))),
+        },
         (),
     );
-    req.reserve_bytes(65535 - limit);
+    req.reserve_bytes(reserved);
     req
+}
+
+fn mk_request(qtype: Rtype, serial: u32, limit: u16) -> Request<Vec<u8>, ()> {
+    mk_request_on(qtype, serial, 65535 - limit, None)
 }
 
 fn abstract_msg(m: &Message<Bytes>) -> Value {
@@ -274,6 +284,7 @@ fn main() {
                 Err(_) => (json!([]), walk_content(&zone2, MAX_N), true),
             };
             tw.event(json!({"ev": "xfer", "req": qtype.to_int(), "from": from, "limit": limit,
+                            "reserved": 65535 - limit as u32, "total": sizes.iter().sum::<usize>(),
                             "sizes": sizes, "msgs": abs,
                             "rold": {"soa": rs, "recs": rrecs},
                             "rsteps": rsteps, "rfinal": rfinal, "rpanic": rpanic,
@@ -304,6 +315,23 @@ fn main() {
                 tw.event(json!({"ev": "xfer_bad", "req": qtype.to_int(), "from": from,
                                 "msgs": abs_bad, "rold": {"soa": rs, "recs": rrecs},
                                 "rsteps": rsteps, "rfinal": rfinal, "rpanic": rpanic}));
+            }
+        }
+        // --- IXFR over UDP: one message within hint - reserved, or the lone
+        // SOA that tells the client to retry over TCP (RFC 1995 2)
+        for s in 1..latest {
+            let hint: u16 = *rng.pick(&[300u16, 512, 1232]);
+            let reserved: u16 = rng.below(120) as u16;
+            let req = mk_request_on(Rtype::IXFR, s as u32, reserved, Some(hint));
+            match rt.block_on(serve(provider.clone(), &req)) {
+                Ok(msgs) => {
+                    let sizes: Vec<usize> = msgs.iter().map(|m| m.as_slice().len()).collect();
+                    let abs: Vec<Value> = msgs.iter().map(abstract_msg).collect();
+                    tw.event(json!({"ev": "xfer_udp", "from": s, "hint": hint, "reserved": reserved,
+                                    "sizes": sizes, "msgs": abs,
+                                    "rold": {"soa": versions[(s - 1) as usize].0, "recs": versions[(s - 1) as usize].1}}));
+                }
+                Err(e) => tw.event(json!({"ev": "xfer_failed", "why": e})),
             }
         }
     }
